@@ -125,6 +125,11 @@ def run(ctx):
                 else: rs.append((b'Cache-Control', ds))
             if rng.random() < 0.3: rs.append((b'Expires', [rng.choice([b'Thu, 01 Dec 1994 16:00:00 GMT', b'0', b''])]))
             case('b3', status=st, rs=rs)
+    # an Expires field makes a response storable whatever its value says (a malformed date means "already expired", not "do not store")
+    for st in (201, 302, 307, 403, 500, 200):
+        for exv in ([b'0'], [b'-1'], [b'Thu, 01 Dec 1994 16:00:00 GMT'], [b'Thu, 01 Dec 1994 16:00:00 GMT', b'0'], [b''], [b'never'], [b'Thursday, 01-Dec-94 16:00:00 GMT']):
+            case('b3', status=st, rs=[(b'Expires', exv)])
+            case('b3', status=st, rs=[(b'Expires', exv), (b'Cache-Control', [b'no-cache'])])
     # a quoted argument placed before the directive that decides
     for st in (200, 201, 302):
         for q in (b'ext="a\\"b"', b'ext="a,b"', b'ext="a\\"b\\"c"', b'ext="x'):
@@ -203,6 +208,16 @@ def run(ctx):
         for dcy in decoys:
             for hdr in (dcy + b', ' + good, good + b', ' + dcy, dcy, dcy + b', ' + dcy + b', ' + good):
                 items.append((se[:6] + [hexs(hdr)] + se[7:], (base_date + 10, 0), {certurl: k['chain']}))
+    # URL spellings: signed, WRITTEN and READ BACK (compared: the reader returns the URL bytes of the file), then verified
+    uops = [f'sxg.sign {exs(ex(ver, u, b"GET", [], 200, [(b"Content-Type", [b"text/html"])], b"", b"url spelling"))} 16 {keys[0]["cert"]} {keys[0]["key"]} {hexs(certurl)} {hexs(b"https://example.com/v")} {base_date} {base_date + 3600}'
+            for ver in VERS for u in ODD_URLS]
+    usigned = [parse_ex(r) for r in ctx.go(uops) if r and parse_ex(r)]
+    wr_, _ = ctx.both([f'sxg.write {exs(e)}' for e in usigned])
+    ufiles = [x.split(' ')[1] for x in wr_ if x and x.startswith('ok ')]
+    gback, _ = read_stage(ctx, ufiles)
+    for x in gback:
+        e2 = parse_ex(x) if x else None
+        if e2: items.append((e2, (base_date + 10, 0), {certurl: keys[0]['chain']}))
     ctx.stats = dict(cases=len(cases), not_signable=unsigned)
     verify_stage(ctx, items, tz=tzmap)
     # IsCacheable directly + Go time arithmetic
